@@ -3517,12 +3517,15 @@ Octagonal_Shape<T>::simplify_using_context_assign(const Octagonal_Shape& y) {
       if (j != x_leaders[j]) {
         continue;
       }
-      if (i >= j) {
+      // The matrix is pseudo-triangular: row i holds the columns
+      // j <= (i | 1); the other entries are stored by coherence
+      // in position (j ^ 1, i ^ 1).
+      if (j <= (i | 1)) {
         if (!x_non_redundant_i[j]) {
           continue;
         }
       }
-      else if (!x_non_redundant[j][i]) {
+      else if (!x_non_redundant[j ^ 1][i ^ 1]) {
         continue;
       }
       N& yy_i_j = yy.matrix_at(i, j);
